@@ -11,7 +11,7 @@
    (nor in is_single_peaked) - sp_decide_set_ext / sp_decide_reorder make "any multiplicities, stored in any order"
    precise. *)
 From Coq Require Import List NArith Bool Permutation.
-From PrefVerif Require Import Lib.Val Lib.Contig Model.SP Proofs.SP.
+From PrefVerif Require Import Lib.Val Lib.Contig Model.SP Model.ELO Proofs.SP Proofs.ELO.
 Import ListNotations.
 
 (* ---- "True exactly when the alternatives can be arranged on a line so that, for every voter and every k, the
@@ -45,6 +45,59 @@ Theorem C03 : forall (alts : list N) (rs : list ranking) (verdict : bool) (axis 
     forall r, In r rs -> forall k, contiguous (firstn k r) axis)).
 Proof. exact Proofs.SP.C03_relation. Qed.
 Print Assumptions C03.
+
+(* ---- the ALGORITHM: Model/ELO.v mirrors is_single_peaked (Escoffier-Lang-Ozturk) statement by statement; the
+        harness checks on every case, at every size, that the implementation's verdict equals the mirror's.
+        For every well-formed strict profile (NoDup alts, every vote a permutation of alts, at least one vote):
+        the while loop stops within num_alternatives rounds, no Python error (IndexError / ValueError, in particular
+        the two "We should never have ended up here" branches) is reachable, and a positive answer comes with an
+        axis that lists every alternative exactly once and for which every voter is single-peaked. ---- *)
+Theorem elo_terminates : forall (alts : list N) (prefs : list ranking),
+  NoDup alts /\ Forall (fun v => Permutation alts v) prefs /\ prefs <> [] ->
+  elo alts prefs <> Err OutOfFuel.
+Proof. exact Proofs.ELO.elo_terminates. Qed.
+Print Assumptions elo_terminates.
+
+Theorem elo_no_error : forall (alts : list N) (prefs : list ranking),
+  NoDup alts /\ Forall (fun v => Permutation alts v) prefs /\ prefs <> [] ->
+  exists verdict axis, elo alts prefs = Ok (verdict, axis).
+Proof. exact Proofs.ELO.elo_no_error. Qed.
+Print Assumptions elo_no_error.
+
+Theorem elo_sound : forall (alts : list N) (prefs : list ranking) (axis : list N),
+  NoDup alts /\ Forall (fun v => Permutation alts v) prefs /\ prefs <> [] ->
+  elo alts prefs = Ok (true, axis) ->
+  (NoDup axis /\ forall a, In a axis <-> In a alts) /\
+  forall r, In r prefs -> forall k, contiguous (firstn k r) axis.
+Proof. exact Proofs.ELO.elo_sound_spec. Qed.
+Print Assumptions elo_sound.
+
+(* Escoffier-Lang-Ozturk correctness: every single-peaked profile is accepted (no premature "3 last candidates",
+   no contradiction in cases (c), the candidate axis of case 2.(d) passes the test). *)
+Theorem elo_complete : forall (alts : list N) (prefs : list ranking),
+  NoDup alts /\ Forall (fun v => Permutation alts v) prefs /\ prefs <> [] ->
+  (exists ax, Permutation alts ax /\ forall r, In r prefs -> forall k, contiguous (firstn k r) ax) ->
+  exists axis, elo alts prefs = Ok (true, axis).
+Proof. exact Proofs.ELO.elo_complete. Qed.
+Print Assumptions elo_complete.
+
+(* the whole C03 statement, for the mirrored algorithm itself *)
+Theorem elo_correct : forall (alts : list N) (prefs : list ranking),
+  NoDup alts /\ Forall (fun v => Permutation alts v) prefs /\ prefs <> [] ->
+  exists verdict axis, elo alts prefs = Ok (verdict, axis) /\
+    (verdict = true <->
+     exists ax, Permutation alts ax /\ forall r, In r prefs -> forall k, contiguous (firstn k r) ax) /\
+    (verdict = true ->
+     (NoDup axis /\ forall a, In a axis <-> In a alts) /\
+     forall r, In r prefs -> forall k, contiguous (firstn k r) axis).
+Proof. exact Proofs.ELO.elo_correct. Qed.
+Print Assumptions elo_correct.
+
+Theorem elo_agrees_reference : forall (alts : list N) (prefs : list ranking),
+  NoDup alts /\ Forall (fun v => Permutation alts v) prefs /\ prefs <> [] ->
+  exists axis, elo alts prefs = Ok (sp_decide alts prefs, axis).
+Proof. exact Proofs.ELO.elo_agrees_reference. Qed.
+Print Assumptions elo_agrees_reference.
 
 (* ---- heredity: a single-peaked profile stays single-peaked on every subset of the alternatives; hence a small
         refuted core refutes the whole profile ---- *)
@@ -98,6 +151,14 @@ Proof.
       try (apply nodupN_correct; vm_compute; reflexivity); vm_compute; reflexivity.
   - repeat split; vm_compute; reflexivity.
 Qed.
+
+(* the mirror run on the minimised profile of the repaired defect F1 (case 2.(d) after a common bottom), on a
+   cyclic profile, and on a 6-alternative profile *)
+Example C03_example_elo :
+  elo [1;2;3;4;5] [ [1;2;3;4;5] ; [4;3;1;2;5] ] = Ok (true, [5;4;3;1;2]) /\
+  elo [1;2;3] [ [1;2;3] ; [2;3;1] ; [3;1;2] ] = Ok (false, []) /\
+  elo [0;1;2;3;9;7] [ [2;1;3;0;9;7] ; [1;2;0;3;9;7] ; [3;2;1;0;9;7] ] = Ok (true, [7;9;0;1;2;3]).
+Proof. repeat split; vm_compute; reflexivity. Qed.
 
 (* the Condorcet cycle is not single-peaked: refuted by the reference, hence (sp_decide_correct) by the definition *)
 Example C03_example_not_sp :
